@@ -21,7 +21,7 @@ class C16(Prop):
             "model; (2) the built binaries: canonical multi-chromosome bedGraph / BED texts → bigWig / bigBed → text, over -t 1..16, "
             "--parallel auto|yes|no, --single-pass, --inmemory, --uncompressed / -unc, --block-size / -blockSize=, --zooms, "
             "multicall `bigtools <sub>`, and restricted output (--chrom/--start/--end and -chrom= -start= -end=) compared with the "
-            "range query of the real reader. Non-trivial = a vector containing at least one UCSC spelling, or a conversion with "
+            "range query of the real reader; plus round trips of files with chromosomes of 25,000–70,000 records (each worker hands its output over in the middle of its writes) for -t 1, 2, 6 and --inmemory. Non-trivial = a vector containing at least one UCSC spelling, or a conversion with "
             "≥ 2 threads or a restricted range")
     removable = ("ARG",)
 
@@ -153,6 +153,43 @@ class C16(Prop):
                 cid = f"rq{k}_{qi}"
                 readcases.append(CaseT(cid, "readbed" if bed else "readwig", [], [f"FILE {outb}", f"Q iv {nm} {a} {b}"]))
                 expect[cid] = (back, bed, nm, style)
+        # large chromosomes: every per-chromosome worker of the converters produces far more than one 8 KiB buffer of text
+        # (or of sections), so its output is handed over in the MIDDLE of its writes — for every thread count
+        for big, bed in enumerate((False, True) if tier == "thorough" else (False, True)):
+            nrec = {"chrA": 25000, "chrB": 70000, "chrC": 400, "chrD": 30000}
+            src = os.path.join(d, f"big{big}." + ("bed" if bed else "bedGraph"))
+            sz = os.path.join(d, f"big{big}.sizes")
+            recs = []
+            with open(src, "w") as f:
+                for nm, n in nrec.items():
+                    for i in range(n):
+                        if bed:
+                            rec = (nm, 7 * i, 7 * i + 5 + (i % 3), f"n{i}\t{i % 1000}\t{'+-'[i % 2]}")
+                            f.write(f"{rec[0]}\t{rec[1]}\t{rec[2]}\t{rec[3]}\n")
+                        else:
+                            rec = (nm, 7 * i, 7 * i + 5, float(1 + (i * 31) % 97) / 4)
+                            f.write(f"{rec[0]}\t{rec[1]}\t{rec[2]}\t{rec[3]}\n")
+                        recs.append(rec)
+            open(sz, "w").write("".join(f"{nm}\t{7 * n + 100}\n" for nm, n in nrec.items()))
+            to_tool, from_tool = ("bedtobigbed", "bigbedtobed") if bed else ("bedgraphtobigwig", "bigwigtobedgraph")
+            for wi, wflags in enumerate((["-t", "1"], ["-t", "4", "--parallel", "yes"])):
+                outb = os.path.join(d, f"big{big}_{wi}." + ("bb" if bed else "bw"))
+                p = subprocess.run([repo_bin(to_tool), src, sz, outb] + wflags, capture_output=True, text=True, timeout=300)
+                runs += 1
+                for rflags in (["-t", "1"], ["-t", "2"], ["-t", "6"], ["-t", "4", "--inmemory"]):
+                    if wi == 1 and rflags != ["-t", "6"]:
+                        continue
+                    back = outb + "." + "_".join(rflags).replace("-", "") + ".txt"
+                    p2 = subprocess.run([repo_bin(from_tool), outb, back] + rflags, capture_output=True, text=True, timeout=300)
+                    runs += 1
+                    got = self.parse_text(back, bed)
+                    if got != recs and not any("roundtrip_big" in v[0] for v in rep.violations):
+                        diff = next(((i, g, w) for i, (g, w) in enumerate(zip((got or []) + [None] * len(recs), recs + [None] * len(got or []))) if g != w), None)
+                        rep.violation(f"roundtrip_big{big}_{wi}.txt",
+                                      f"# {to_tool} {' '.join(wflags)} then {from_tool} {' '.join(rflags)} on chromosomes of {nrec} records does not return the "
+                                      f"original records: {len(got or [])} of {len(recs)} records; first difference (index, got, expected): {diff}; "
+                                      f"exit {p.returncode}/{p2.returncode} {p.stderr.strip()[-150:]} {p2.stderr.strip()[-150:]}\n")
+                    rep.tag("large_chromosomes_" + "_".join(wflags + rflags).replace("-", ""))
         ri = run_impl(readcases, os.path.join(d, "rq"))
         for c in readcases:
             back, bed, nm, style = expect[c.id]
